@@ -454,8 +454,10 @@ def run_cases(ctx, exe, cases, label, model_ok, tsan=False):
             trace_jobs = [j for j in trace_jobs if len(j[3]["ev"]) < 150000]
             if len(trace_jobs) > 1000:
                 trace_jobs = trace_jobs[::max(1, len(trace_jobs) // 1000)]
-        elif len(trace_jobs) > 8000:
-            trace_jobs = trace_jobs[::max(1, len(trace_jobs) // 8000)]
+        else:
+            cap = int(os.environ.get("C07_TRACE_CAP", "8000"))
+            if len(trace_jobs) > cap:
+                trace_jobs = trace_jobs[::max(1, len(trace_jobs) // cap)]
         trace_inclusion(ctx, trace_jobs, label)
     return nbad
 
